@@ -308,8 +308,8 @@ func runC06(c *Ctx) {
 	r.Doc("N6", "the base-path candidates (uncrowded) are exactly the registered priorities with actual < strategic", 2)
 	r.Doc("N7", "the 'allotment filled' predicate answers true exactly when every listed priority has a non-zero allotment", 2)
 	r.Doc("N10", "(= E2 registration) a newly registered channel starts not drained, so it is read", 1)
-	r.Doc("N13", "every division into the allotment map starts from the emptied map (nearest event before it is the reset)", 4)
-	r.Doc("N12", "the may-proceed answer of a dividing function is the for-all over the list it just divided", 4)
+	r.Doc("N13", "every division into the allotment map starts from the emptied map (nearest event before it is the reset)", 3)
+	r.Doc("N12", "the may-proceed answer of a dividing function is the for-all over the list it just divided", 3)
 	r.Doc("N9", "(= P4) the pass over an input is left early only for lack of data, closure or stop", 4)
 	r.Doc("N8", "second-phase candidates: first the priorities that used up their allotment (tactic == 0), then those with actual < hypothetical share", 4)
 	for _, p := range []*Prog{c.V1, c.V2} {
